@@ -85,8 +85,8 @@ Cancel(c, r) ==
       /\ ctxd' = Ctx(sv, k2, stopped, ctxd)
    /\ UNCHANGED <<sv, hcode, gs, stopped, late, killed>>
 
-\* the driver lets the handler of (c, r) return status code k
-Finish(c, r, k) ==
+\* the driver lets the handler of (c, r) return status code k (g: GracefulStop state before)
+FinishWith(c, r, k, g) ==
    /\ sv[c][r] = "running" /\ k \in HCodes
    /\ LET s1 == [sv EXCEPT ![c][r] = "returned"]  s2 == Promote(s1)
           deliver == cl[c][r] = "open"                 \* otherwise cancelled or failed by Stop
@@ -95,12 +95,22 @@ Finish(c, r, k) ==
       /\ clcode' = IF deliver THEN [clcode EXCEPT ![c][r] = k] ELSE clcode
       /\ hcode' = [hcode EXCEPT ![c][r] = k]
       /\ ctxd' = Ctx(s2, k2, stopped, ctxd)
-      /\ gs' = GsNext(gs, s2)
+      /\ gs' = GsNext(g, s2)
    /\ UNCHANGED <<stopped, late, killed>>
+Finish(c, r, k) == sv[c][r] = "running" /\ FinishWith(c, r, k, gs)
 
-GStop == /\ gs = "no" /\ ~stopped
+\* GracefulStop.  While the reader goroutine of a connection is parked in the handler quota it holds
+\* http2Server.maxStreamMu, and the connection's writer blocks on that mutex in outgoingGoAwayHandler
+\* until a handler of the connection returns: the system is not quiescent (a mutex wait).  The driver
+\* therefore calls GracefulStop alone only when no reader is parked (GStop) and otherwise together with
+\* the return of one running handler of the single parked connection (GFinish, one settled step).
+NoneParked == \A c \in Conns : ~ReaderBlocked(sv, c)
+GStop == /\ gs = "no" /\ ~stopped /\ NoneParked
          /\ gs' = GsNext("called", sv)
          /\ UNCHANGED <<cl, clcode, sv, ctxd, hcode, stopped, late, killed>>
+GFinish(c, r, k) == /\ gs = "no" /\ ~stopped
+                    /\ ReaderBlocked(sv, c) /\ \A d \in Conns \ {c} : ~ReaderBlocked(sv, d)
+                    /\ FinishWith(c, r, k, "called")
 
 \* Stop while no GracefulStop is in progress: every transport is closed
 HStop == /\ ~stopped /\ gs = "no"
@@ -127,7 +137,7 @@ FStop == /\ ~stopped /\ gs = "called"
          /\ UNCHANGED late
 
 Next == \/ \E c \in Conns, r \in Rpcs : Start(c, r) \/ Cancel(c, r)
-        \/ \E c \in Conns, r \in Rpcs, k \in HCodes : Finish(c, r, k)
+        \/ \E c \in Conns, r \in Rpcs, k \in HCodes : Finish(c, r, k) \/ GFinish(c, r, k)
         \/ GStop \/ HStop \/ FStop
 
 (***************************************************************************)
